@@ -275,9 +275,10 @@ func c17Run(x *vmc.X, cfg vmc.Cfg) {
 	}
 
 	type opRec struct {
-		name string
-		t    time.Duration
-		key  int
+		name  string
+		t     time.Duration
+		key   int
+		sched map[int]string // the schedule prefix of every key when the operation began
 	}
 	var hist []opRec
 	kept := map[int]bool{}
@@ -470,7 +471,7 @@ func c17Run(x *vmc.X, cfg vmc.Cfg) {
 					time.Sleep(time.Second)
 					synctest.Wait()
 					x.Obs("%s", o.name)
-					hist = append(hist, opRec{name: o.name, t: e.now()})
+					hist = append(hist, opRec{name: o.name, t: e.now(), sched: schedPrefixes()})
 					if !o.run() {
 						return
 					}
@@ -487,7 +488,7 @@ func c17Run(x *vmc.X, cfg vmc.Cfg) {
 		time.Sleep(time.Second) // operations happen at distinct virtual instants
 		synctest.Wait()
 		x.Obs("%s", ops[i].name)
-		hist = append(hist, opRec{name: ops[i].name, t: e.now()})
+		hist = append(hist, opRec{name: ops[i].name, t: e.now(), sched: schedPrefixes()})
 		if !ops[i].run() {
 			return
 		}
@@ -653,6 +654,32 @@ func c17Run(x *vmc.X, cfg vmc.Cfg) {
 				// prefix-length estimate of the new process differs) has its own signature: known finding D20
 				sig, note := "C17/reprovide-gap", ""
 				after := schedPrefixes()
+				// known finding D24: the key's region was split between the two advertisements (its schedule prefix at the
+				// last operation that began before the first one is a proper prefix of the one it has now) while the swarm
+				// had grown, and no restart lies inside the gap
+				var was string
+				known := false
+				grown := false
+				for _, h := range hist {
+					if h.t <= prev {
+						if p, ok := h.sched[k]; ok {
+							was, known = p, true
+						}
+					}
+					if h.t < t && strings.HasPrefix(h.name, "swarm+=") {
+						grown = true
+					}
+				}
+				restartInside := false
+				for _, r := range restarts {
+					if r.t > prev && r.t < t {
+						restartInside = true
+					}
+				}
+				if known && grown && !restartInside && len(after[k]) > len(was) && strings.HasPrefix(after[k], was) {
+					sig = "C17/reprovide-gap-after-region-split"
+					note = fmt.Sprintf(" [the key's region was scheduled under %q before the first of the two advertisements and is under %q now]", was, after[k])
+				}
 				for _, r := range restarts {
 					if r.t > prev && r.t < t {
 						sig = "C17/reprovide-gap-across-restart"
